@@ -9,6 +9,7 @@ use vstd::std_specs::cmp::*;
 use vstd::std_specs::ops::*;
 verus! {
 //@ include lib/base.rs
+//@ include lib/lvlow.rs
 
 //@ extract src/lib.rs struct Uint
 pub struct Uint<const BITS: usize, const LIMBS: usize> { pub
